@@ -92,6 +92,19 @@ def runSuspense (uses : List (Option Nat)) (m : M) (evs : List String) (acc : Li
       let m' := step m ev
       runSuspense uses m' es (acc ++ [showM m' m.polls.length uses])
 
+/-- `until_finished()` of every boundary (a waiter spawned in the boundary's scope): it has come back once the
+boundary was seen not loading at an observation point after an executor turn, and stays so; derived from the `L=`
+field of the observation lines (`1` loading, `0` not loading, `x` scope gone: the waiter went with it) -/
+def addUntil (noInitialDrain : Bool) (lines : List String) : List String :=
+  let step := fun (acc : List Char × Bool × List String) (line : String) =>
+    let (u, first, out) := acc
+    let l := ((line.splitOn " ").headD "").drop 2 |>.toString |>.toList      -- after `L=`
+    let u := if u.isEmpty then l.map (fun _ => '0') else u
+    let u' := if first && noInitialDrain then u
+              else (List.zip u l).map fun (x, c) => if c == '0' then '1' else x
+    (u', false, out ++ [line ++ " U=" ++ String.ofList u'])
+  (lines.foldl step ([], true, [])).2.2
+
 def showRes (r : Res) (alive : Bool) : String :=
   if !alive then "dead" else
   (match r.value with | some (k, d) => s!"v={k}:{d}" | none => "v=none") ++ (if r.loading then " l=1" else " l=0")
@@ -247,8 +260,9 @@ def handle (line : String) : String :=
         let m := buildItems M.init 0 none items
         -- a leading `n` (no executor turn before the first event) makes no difference to the model
         let evl := if evs == "-" then [] else evs.splitOn ","
-        let evl := if evl.head? == some "n" then evl.drop 1 else evl
-        " | ".intercalate (runSuspense (items0.flatMap usesOf) m evl [showM m 0 (items0.flatMap usesOf)])
+        let noDrain := evl.head? == some "n"
+        let evl := if noDrain then evl.drop 1 else evl
+        " | ".intercalate (addUntil noDrain (runSuspense (items0.flatMap usesOf) m evl [showM m 0 (items0.flatMap usesOf)]))
       | none => "bad-op"
     | _, _ => "bad-op"
   | _ => "bad-op"
